@@ -17,6 +17,9 @@ try:
     r = run(f"/venv/bin/python {d}/demo.py", cwd=wt, env=env)
     rec["demo_clean_rc"] = r.returncode
     r = run(f"git apply --whitespace=nowarn {d}/patch.diff", cwd=wt)
+    if r.returncode != 0:
+        r = run(f"patch -p1 -F3 -s < {d}/patch.diff", cwd=wt)
+        rec["applied_with_fuzz"] = True
     rec["applies"] = r.returncode == 0
     r = run("/venv/bin/python -m pytest -q -p no:cacheprovider --deselect 'tests/test_vector_gradients.py::TestGradientComplexity::test_quadratic_form_constant_time' 2>&1 | tail -1", cwd=wt, env=env)
     rec["suite"] = r.stdout.strip()
